@@ -1,2 +1,5 @@
 import Biogo.Properties.C12
 open Biogo.Properties.C12
+#print axioms finalise_waits
+#print axioms finalise_blocked_while_writing
+#print axioms no_deadlock
